@@ -38,6 +38,9 @@ pub struct Case {
     pub burst: u8,
     pub block: bool,
     pub peers: u8,
+    /// which byte of the 32-byte identity distinguishes the peers
+    #[serde(default)]
+    pub id_layout: u8,
     pub steps: Vec<Step>,
 }
 
@@ -63,8 +66,12 @@ impl Service<Request<Bytes>> for Inner {
     }
 }
 
-fn pid(i: u8) -> PeerId {
-    PeerId([i.wrapping_mul(29).wrapping_add(3); 32])
+/// Peer ids share all bytes but one; `layout` selects which byte tells peers apart (so that
+/// keying on a prefix, suffix or digest of the id is visible).
+fn pid(i: u8, layout: u8) -> PeerId {
+    let mut id = [0xAB; 32];
+    id[[0usize, 5, 8, 16, 31][layout as usize % 5]] = i.wrapping_add(1);
+    PeerId(id)
 }
 
 #[derive(Clone, Debug)]
@@ -78,11 +85,11 @@ struct Outcome {
     status: Option<u16>,
 }
 
-async fn one<S>(svc: &S, shared: &Arc<Mutex<Shared>>, id: u64, peer: u8) -> Outcome
+async fn one<S>(svc: &S, shared: &Arc<Mutex<Shared>>, id: u64, peer: u8, layout: u8) -> Outcome
 where
     S: Service<Request<Bytes>, Response = Response<Bytes>, Error = Status> + Clone,
 {
-    let req = Request::new(Bytes::new()).with_header("id", id.to_string()).with_extension(pid(peer));
+    let req = Request::new(Bytes::new()).with_header("id", id.to_string()).with_extension(pid(peer, layout));
     let before = Instant::now();
     let r = svc.clone().oneshot(req).await;
     let after = Instant::now();
@@ -135,11 +142,11 @@ async fn check_async(case: &Case, obs: &mut Obs) -> Result<(), Fail> {
                 let deadline = period * (n + 2) * 20 + Duration::from_secs(5);
                 let run = async {
                     if *concurrent {
-                        futures::future::join_all(ids.iter().enumerate().map(|(k, id)| one(if k % 2 == 0 { &svc } else { &svc2 }, &shared, *id, peer))).await
+                        futures::future::join_all(ids.iter().enumerate().map(|(k, id)| one(if k % 2 == 0 { &svc } else { &svc2 }, &shared, *id, peer, case.id_layout))).await
                     } else {
                         let mut v = Vec::new();
                         for id in &ids {
-                            v.push(one(&svc, &shared, *id, peer).await);
+                            v.push(one(&svc, &shared, *id, peer, case.id_layout).await);
                         }
                         v
                     }
@@ -157,7 +164,7 @@ async fn check_async(case: &Case, obs: &mut Obs) -> Result<(), Fail> {
                 for _ in 0..burst {
                     let id = next_id;
                     next_id += 1;
-                    let o = one(&svc, &shared, id, peer).await;
+                    let o = one(&svc, &shared, id, peer, case.id_layout).await;
                     vensure!(o.admitted && o.status == Some(200), "c19:peer-interference", "fresh peer refused/not admitted within its burst of {burst} (status {:?}) while other peers were active", o.status);
                     outcomes.push(o);
                 }
@@ -179,7 +186,7 @@ async fn check_async(case: &Case, obs: &mut Obs) -> Result<(), Fail> {
                 for _ in 0..(burst + 2) {
                     let id = next_id;
                     next_id += 1;
-                    let o = one(&svc, &shared, id, peer).await;
+                    let o = one(&svc, &shared, id, peer, case.id_layout).await;
                     let refused = !o.admitted;
                     outcomes.push(o.clone());
                     if refused {
@@ -193,7 +200,7 @@ async fn check_async(case: &Case, obs: &mut Obs) -> Result<(), Fail> {
                         tokio::time::sleep(Duration::from_nanos(h as u64) + Duration::from_micros(200)).await;
                         let id = next_id;
                         next_id += 1;
-                        let o2 = one(&svc, &shared, id, peer).await;
+                        let o2 = one(&svc, &shared, id, peer, case.id_layout).await;
                         vensure!(o2.admitted, "c19:hint-too-small", "peer waited the hinted {h} ns after a refusal and was refused again (period {:?}, burst {burst})", period);
                         outcomes.push(o2);
                     }
@@ -282,8 +289,8 @@ impl Part for Histories {
             1 => Just(Step::FreshPeer),
             1 => (0u8..4).prop_map(|peer| Step::HintProbe { peer }),
         ];
-        (2u8..50, 1u8..9, any::<bool>(), 1u8..5, prop::collection::vec(step, 1..10))
-            .prop_map(|(period_ms, burst, block, peers, steps)| Case { period_ms, burst, block, peers, steps })
+        (2u8..50, 1u8..9, any::<bool>(), 1u8..5, 0u8..5, prop::collection::vec(step, 1..10))
+            .prop_map(|(period_ms, burst, block, peers, id_layout, steps)| Case { period_ms, burst, block, peers, id_layout, steps })
             .boxed()
     }
     fn run(&self, c: &Case, obs: &mut Obs) -> Result<(), Fail> { check(c, obs) }
